@@ -93,7 +93,12 @@ def _compile_bc_locked(cc, flags, src, bc):
     os.unlink(ll)
     return bc
 
+_model_lock = threading.Lock()
 def model_list():
+    with _model_lock:
+        return _model_list()
+
+def _model_list():
     """names defined by the runtime model (functions and data)."""
     os.makedirs(CACHE, exist_ok=True)
     srcs = [MODEL_C] + [os.path.join(MODEL_DIR, f) for f in sorted(os.listdir(MODEL_DIR)) if f.endswith(".c") and f != "vx_runtime.c"]
@@ -144,6 +149,7 @@ class Inst:
                  bounds="", inputs="", c_sources=(), nounwind_assert=False, extra_cbmc=(), ub=True, desc="", model_unwind=17):
         self.model_unwind = model_unwind
         self.rest_backends = ["sat"]
+        self.long_unwind = 66
         self.id = id; self.props = list(props); self.harness = harness; self.entry = entry
         self.tus = list(tus); self.defs = list(defs); self.stubs = list(stubs)
         self.unwind = unwind; self.unwindset = list(unwindset); self.backends = list(backends)
@@ -157,7 +163,7 @@ CORE_TUS = ["blocc/value.cpp", "blocc/context.cpp", "blocc/collection.cpp", "blo
 
 # cuts for kernels whose values are scalars: container / object payload code and error-text formatting.
 # A cut function has the body assert(0,"unmodelled external"), so a passing run proves it unreachable.
-FMT_STUBS = ["_ZNK4bloc4Type8typeNameB5cxx11Ev", "_ZNK4bloc4Type8typeNameERKNSt7__cxx1112basic_stringIcSt11char_traitsIcESaIcEEE",
+FMT_STUBS = ["_ZNK4bloc5Error4whatEv", "_ZNK4bloc4Type8typeNameB5cxx11Ev", "_ZNK4bloc4Type8typeNameERKNSt7__cxx1112basic_stringIcSt11char_traitsIcESaIcEEE",
              "_ZNK4bloc5Value8toStringB5cxx11Ev", "_ZNK4bloc5Value8typeNameB5cxx11Ev", "_ZNK4bloc9TupleDecl4Decl9tupleNameB5cxx11Ev"]
 CTX_STUBS = ["_ZN4bloc7ContextD0Ev", "_ZN4bloc7ContextD2Ev", "_ZN4bloc7FunctorD2Ev"]
 CONTAINER_STUBS = ["_ZN4bloc10CollectionC2ERKS0_", "_ZN4bloc10CollectionD0Ev", "_ZN4bloc10CollectionD2Ev",
@@ -284,7 +290,7 @@ def cbmc_flags(inst, loops):
         flags.append("--unwinding-assertions")
     uws = {}
     for l in loops:
-        uws[l] = str(inst.model_unwind)
+        uws[l] = str(inst.long_unwind if "_long" in l else inst.model_unwind)
     for u in inst.unwindset:
         k, v = u.rsplit(":", 1); uws[k] = v
     if uws:
